@@ -131,20 +131,53 @@ def err_name(e):
 
 
 # ------------------------------------------------------------------------------------------ generators
+LONG_L = [31, 32, 33, 36, 63, 64, 65, 70, 100]      # around and beyond machine-word widths
+
+
 def rand_keys(rng, L, n):
-    space = 2 ** L
-    n = min(n, space)
-    return [format(i, "0%db" % L) if L else "" for i in rng.sample(range(space), n)]
+    if L == 0:
+        return [""]
+    if L <= 10:
+        space = 2 ** L
+        return [format(i, "0%db" % L) for i in rng.sample(range(space), min(n, space))]
+    ks = []
+    while len(ks) < n:
+        r = rng.random()
+        if r < 0.15 and ks:                       # differs from an earlier key in one (often far) position only
+            k = list(rng.choice(ks))
+            q = rng.choice([0, L - 1, 31, 32, 63, 64, rng.randrange(L)])
+            q = min(q, L - 1)
+            k[q] = "1" if k[q] == "0" else "0"
+            k = "".join(k)
+        else:
+            k = format(rng.getrandbits(L), "0%db" % L)
+        if k not in ks:
+            ks.append(k)
+    return ks
 
 
-def rand_hist(rng, mode=None, L=None, nkeys=None):
+def rand_hist(rng, mode=None, L=None, nkeys=None, mirror_p=0.4, long_p=0.12):
     """-> (dict, mode).  modes: counts (ints, zeros allowed), probs (Fractions summing to 1),
-    dyadic (floats k/2^m summing to 1), fcounts (Fraction 'counts' not normalised)."""
+    dyadic (floats k/2^m summing to 1), fcounts (Fraction 'counts' not normalised).
+    Key length: 0 (rarely), 1-6, or (long_p) one of LONG_L.  With probability mirror_p the key set
+    contains a non-palindromic bitstring together with its mirror image."""
     mode = mode or rng.choice(["counts", "counts", "probs", "dyadic", "fcounts"])
     if L is None:
-        L = 0 if rng.random() < 0.03 else rng.randint(1, 6)
+        r = rng.random()
+        L = 0 if r < 0.03 else (rng.choice(LONG_L) if r < 0.03 + long_p else rng.randint(1, 6))
     nk = rng.randint(1, 6) if nkeys is None else nkeys
     ks = rand_keys(rng, L, nk)
+    if L >= 2 and rng.random() < mirror_p:
+        cand = [k for k in ks if k != k[::-1]]
+        if not cand:
+            k = "0" * (L - 1) + "1"
+            if k not in ks:
+                ks.append(k)
+            cand = [k]
+        for k in cand[:2]:
+            if k[::-1] not in ks:
+                ks.append(k[::-1])
+        rng.shuffle(ks)
     if mode == "counts":
         vals = [rng.choice([0, 1, 1, 2, 3, 5, 8, 13, 40, 100]) for _ in ks]
     elif mode == "fcounts":
@@ -161,17 +194,61 @@ def rand_hist(rng, mode=None, L=None, nkeys=None):
     return dict(zip(ks, vals)), mode
 
 
-def rand_indices(rng, L, malformed=False):
-    idx = [i for i in range(L) if rng.random() < 0.4]
+def has_mirror_pair(d):
+    return any(k != k[::-1] and k[::-1] in d for k in d)
+
+
+def rand_indices(rng, L, malformed=False, unique=False):
+    """Index lists as a caller may write them: empty, one end, both ends, a random subset; unsorted;
+    with a repeated index (unless unique); malformed adds a negative or an out-of-range index."""
+    r = rng.random()
+    if r < 0.10 or L == 0:
+        idx = []
+    elif r < 0.22:
+        idx = [0, L - 1] if L > 1 else [0]
+    elif r < 0.30:
+        idx = [L - 1]
+    elif r < 0.38:
+        idx = [0]
+    elif L > 8:
+        edge = [q for q in (0, 1, 30, 31, 32, 33, 62, 63, 64, 65, L - 2, L - 1) if 0 <= q < L]
+        idx = sorted({q for q in edge if rng.random() < 0.4} | {rng.randrange(L) for _ in range(rng.randint(0, 4))})
+    else:
+        idx = [i for i in range(L) if rng.random() < 0.4]
     rng.shuffle(idx)
+    if not unique and idx and rng.random() < 0.3:
+        idx.insert(rng.randrange(len(idx) + 1), rng.choice(idx))
     if malformed:
-        idx += [rng.choice([-1, -2, L, L + 3, -L - 1])]
-        rng.shuffle(idx)
+        idx.insert(rng.randrange(len(idx) + 1), rng.choice([-1, -2, -L, L, L + 3, -L - 1]))
     return idx
 
 
+def idx_tags(idx, L):
+    t = []
+    if not idx:
+        t.append("idx:empty")
+    if len(set(idx)) < len(idx):
+        t.append("idx:repeated")
+    if idx != sorted(idx):
+        t.append("idx:unsorted")
+    if any(i < 0 for i in idx):
+        t.append("idx:negative")
+    if any(i >= L for i in idx):
+        t.append("idx:out-of-range")
+    if L and 0 in idx and L - 1 in idx:
+        t.append("idx:both-ends")
+    return t
+
+
 def rand_term(rng, L, letters="Z"):
-    qs = sorted(q for q in range(L) if rng.random() < 0.5)
+    if L > 8:
+        edge = [q for q in (0, 1, 30, 31, 32, 33, 62, 63, 64, 65, L - 2, L - 1) if 0 <= q < L]
+        qs = {q for q in edge if rng.random() < 0.4} | {rng.randrange(L) for _ in range(rng.randint(0, 3))}
+        if rng.random() < 0.5:
+            qs |= {0, L - 1}
+        qs = sorted(qs)
+    else:
+        qs = sorted(q for q in range(L) if rng.random() < 0.5)
     return tuple((q, rng.choice(letters)) for q in qs)
 
 
@@ -343,7 +420,7 @@ def gen_hist_cases(ck, cs, n, malformed_p=0.12):
         elif kind in ("post_select_m", "post_select_fn"):
             d, mode = rand_hist(rng)
             L = len(next(iter(d)))
-            qs = rand_indices(rng, L, bad)
+            qs = rand_indices(rng, L, bad, unique=True)
             exp = {q: rng.choice("01") for q in qs}
             case = {"kind": kind, "d": jd(d), "exp": [[q, b] for q, b in exp.items()], "mode": mode}
             try:
@@ -360,7 +437,7 @@ def gen_hist_cases(ck, cs, n, malformed_p=0.12):
             else:
                 expr = "sh (post_select_fn %s %s %s)" % (coq_hist(d), coq_outcomes(exp), coq_Q(EPS_DEFAULT))
             cs.add(st, case, impl, expr)
-            if isinstance(impl, dict) and all(0 <= q < L for q in exp):
+            if isinstance(impl, dict) and all(-L <= q < L for q in exp):      # k[q] with Python's negative indices
                 sel = {k: v for k, v in d.items() if all(k[q] == b for q, b in exp.items())}
                 ref = bf_marginal(sel, [i for i in range(L) if i not in exp])
                 if kind == "post_select_m":
@@ -373,7 +450,7 @@ def gen_hist_cases(ck, cs, n, malformed_p=0.12):
                        "post-selection %s of %s gives %s, selected marginal %s" % (exp, show_impl_hist(d), show_impl_hist(impl), show_impl_hist(ref)),
                        {"kind": kind, "d": jd(d), "exp": [[q, b] for q, b in exp.items()]})
         elif kind == "aggregate":
-            L = rng.randint(1, 5)
+            L = rng.choice(LONG_L) if rng.random() < 0.12 else rng.randint(1, 5)
             nh = rng.choice([1, 2, 2, 3, 4])
             mode = rng.choice(["counts", "counts", "fcounts", "dyadic"])
             ds = [rand_hist(rng, mode, L=(L if not (bad and i == 1) else L + 1))[0] for i in range(nh)]
@@ -454,6 +531,9 @@ def gen_hist_cases(ck, cs, n, malformed_p=0.12):
             term = rand_term(rng, L, "Z")
             sup = [q for q, _ in term]
             R = [i for i in range(L) if i not in sup and rng.random() < 0.6]
+            rng.shuffle(R)
+            if R and rng.random() < 0.3:
+                R.insert(rng.randrange(len(R) + 1), rng.choice(R))
             keep = [i for i in range(L) if i not in R]
             new_term = tuple((keep.index(q), s) for q, s in term)
             case = {"kind": kind, "d": jd(d), "term": [list(x) for x in term], "R": R, "mode": mode}
@@ -538,6 +618,22 @@ def gen_hist_cases(ck, cs, n, malformed_p=0.12):
                    "filter_hist changed values or its operand", {"kind": kind, "d": jd(d), "q": q, "b": b})
 
 
+def case_tags(case):
+    d = case.get("d") or (case.get("ds") or [{}])[0]
+    L = len(next(iter(d))) if d else 0
+    t = []
+    if L > 8:
+        t.append("long-keys" + (">32" if L > 32 else "") + (">64" if L > 64 else ""))
+    if has_mirror_pair(d):
+        t.append("mirror-pair")
+    idx = case.get("R", case.get("idx"))
+    if idx is None and "exp" in case:
+        idx = [q for q, _ in case["exp"]]
+    if idx is not None:
+        t += idx_tags(list(idx), L)
+    return t
+
+
 def compare_cases(ck, cs, name):
     exprs = [e for (_, _, _, e, _) in cs.items]
     model = ck.coq_eval(name, PREAMBLE, exprs, shard=250)
@@ -563,7 +659,7 @@ def compare_cases(ck, cs, name):
         d = case.get("d") or (case.get("ds") or [{}])[0]
         ck.case(stream, json.dumps(case, sort_keys=True, default=str), nontrivial=(not err) and len(d) >= 3,
                 sample={"case": case, "impl": shown[:300], "model": m[:300]},
-                tags=[case["kind"], "err" if err else "ok", "mode:" + str(case.get("mode"))])
+                tags=[case["kind"], "err" if err else "ok", "mode:" + str(case.get("mode"))] + case_tags(case))
         if not ok:
             ck.violation("C18/correspondence/%s" % case["kind"],
                          "model and implementation differ on %s: impl=%s model=%s" % (json.dumps(case, default=str)[:500], shown[:400], m[:400]),
@@ -768,6 +864,67 @@ def gen_grouping_cases(ck, n_ops, seeds):
                          {"kind": "correspondence", "case": case, "what": what, "impl": e, "model": m}, found_input=False)
 
 
+def long_key_grouping(ck, n):
+    """exp_value_from_measurement_bases / get_expectation_value / oneterm on registers wider than a machine
+    word: operators with factors on the first and last qubits of 33..100-qubit registers, grouped by
+    group_qwc; dyadic frequency dictionaries per basis; exact reference by explicit parity of the
+    characters; the same cases through the model."""
+    from openfermion import QubitOperator
+    from tangelo.toolboxes.measurements import qubit_terms_grouping as G
+    from tangelo.toolboxes.post_processing.histogram import Histogram
+    from tangelo.linq import get_expectation_value_from_frequencies_oneterm as oneterm
+    rng = ck.rng
+    ck.stream("long-registers", "operators on 31..100-qubit registers with factors on the first/last qubits and around positions "
+              "31/32/63/64, grouped by group_qwc; dyadic frequency dictionaries; assembled value, oneterm and "
+              "Histogram.get_expectation_value vs explicit character parity and vs the model; non-trivial = >= 2 groups")
+    exprs, expect = [], []
+    for _ in range(n):
+        nq = rng.choice(LONG_L)
+        op = QubitOperator()
+        for _t in range(rng.randint(1, 6)):
+            term = rand_term(rng, nq, "XYZ")
+            c = rng.randint(-16, 16) / 8 or 0.5
+            op += QubitOperator(term, c)
+        terms0 = dict(op.terms)
+        groups = G.group_qwc(op, seed=rng.randrange(100))
+        gd = {b: dict(sub.terms) for b, sub in groups.items()}
+        case = {"op": [[list(map(list, t)), [complex(c).real, complex(c).imag]] for t, c in terms0.items()], "nq": nq}
+        ok, why = py_is_qwc_partition(terms0, gd)
+        if not ok:
+            ck.violation("C18/group_qwc/not-a-qwc-partition", "group_qwc(%s): %s" % (op, why), {"kind": "grouping", **case})
+        hd = {b: rand_hist(rng, "dyadic", L=nq, mirror_p=0.2)[0] for b in gd}
+        case["hists"] = [[list(map(list, b)), jd(d)] for b, d in hd.items()]
+        ck.case("long-registers", json.dumps(case, sort_keys=True), nontrivial=len(gd) >= 2,
+                sample={"operator": str(op)[:200], "nq": nq}, tags=["nq=%d" % nq, "groups=%d" % len(gd)])
+        try:
+            val = complex(G.exp_value_from_measurement_bases(groups, hd))
+        except Exception as e:
+            ck.violation("C18/exp_value_from_measurement_bases/raises-on-long-register", "%s on %d qubits: %r" % (op, nq, e), {"kind": "long_grouping", **case})
+            continue
+        ref = sum(complex(c) * float(bf_expect(t, hd[b])) for b, sub in gd.items() for t, c in sub.items())
+        if abs(val - ref) > 1e-9:
+            ck.violation("C18/exp_value_from_measurement_bases/wrong-parity-on-long-register",
+                         "operator %s on %d qubits: assembled %r, explicit parity sum %r" % (op, nq, val, ref), {"kind": "long_grouping", **case})
+        for b, sub in gd.items():
+            for t in sub:
+                e1 = oneterm(t, dict(hd[b]))
+                e2 = Histogram(dict(hd[b])).get_expectation_value(t, 1.)
+                r = float(bf_expect(t, hd[b]))
+                if abs(e1 - r) > 1e-9 or abs(e2 - r) > 1e-9:
+                    ck.violation("C18/get_expectation_value_from_frequencies_oneterm/wrong-parity-on-long-register",
+                                 "term %s on %s (%d qubits): oneterm %r, Histogram %r, explicit parity %r" % (t, show_impl_hist(hd[b])[:300], nq, e1, e2, r),
+                                 {"kind": "long_oneterm", "term": [list(x) for x in t], "d": jd(hd[b])})
+        glist = [(b, list(sub.items())) for b, sub in gd.items()]
+        exprs.append("show_res show_coef (exp_value_from_measurement_bases %s %s)" % (
+            coq_grouping(glist), coq_list(["(%s, %s)" % (coq_term(b), coq_hist(d)) for b, d in hd.items()])))
+        expect.append((case, "%s+%sj" % (fr(F(val.real)), fr(F(val.imag)))))
+    model = ck.coq_eval("longgrp", PREAMBLE, exprs, shard=60)
+    for (case, e), m in zip(expect, model):
+        if e != m:
+            ck.violation("C18/correspondence/exp_value_from_measurement_bases-long", "model %s, implementation %s on %s" % (m[:200], e[:200], json.dumps(case)[:400]),
+                         {"kind": "correspondence", "case": case, "impl": e, "model": m}, found_input=False)
+
+
 def fr(x):
     return str(x.numerator) if x.denominator == 1 else "%d/%d" % (x.numerator, x.denominator)
 
@@ -840,15 +997,22 @@ def run(ck):
                       "qwc_partition_gives_termwise assumes the per-basis histograms come from one state (equal marginals on qubits "
                       "measured along the same axes); that link to quantum mechanics is checked numerically by the oracle, not proved",
                       "resampling: only exact invariants, the sampled distribution is outside the technique"]
+    from translator import post_tables
     try:
-        from translator import post_tables
         t = post_tables.extract(REPO)
         ck.write_gen("PostTables", post_tables.emit(t))
         ck.notes["post_tables"] = {k: str(v) for k, v in t.items()}
+        ck.notes["post_tables_source"] = "regenerated from /repo"
     except TranslateError as e:
+        # fail closed for the table, but keep searching: every oracle stream still runs on the implementation and
+        # the model correspondence runs against the LAST KNOWN-GOOD constants (labelled as such in the evidence)
         ck.violation("C18/translator/post_tables", "translator no longer recognises the source: %s" % e,
                      {"kind": "translator", "error": str(e)}, found_input=False)
-        return
+        ck.write_gen("PostTables", post_tables.emit(post_tables.FALLBACK))
+        ck.notes["post_tables"] = {k: str(v) for k, v in post_tables.FALLBACK.items()}
+        ck.notes["post_tables_source"] = ("FALLBACK: last known-good constants (translator failed closed: %s); theorems that mention "
+                                          "Gen.PostTables are NOT tied to the current source in this run" % e)
+        ck.assumptions.append("Gen.PostTables was NOT regenerated in this run (translator failure); fallback constants used")
     res = ck.prove()
     if not res.ok:
         ck.proof_violation(res)
@@ -866,7 +1030,7 @@ def run(ck):
         for f in sorted(corpus.glob("*.json")):
             replay(json.loads(f.read_text()), ck=ck)
     ck.stream("histogram-ops", "random histograms (integer counts incl. zeros, exact probabilities, dyadic floats, rational counts; "
-              "key length 1-6, 1-6 keys; msq_first; ~12% malformed: inconsistent key lengths, negative / out-of-range indices, "
+              "key length 0-6 and (12%) 31/32/33/36/63/64/65/70/100 with terms and indices at both ends and around positions 31/32/63/64, 1-8 keys, 40% with a bitstring AND its mirror image; index lists empty / one end / both ends / unsorted / repeated; msq_first; ~12% malformed: inconsistent key lengths, negative / out-of-range indices, "
               "zero totals, empty dictionaries) through Histogram(), remove_qubit_indices, post_select, +/aggregate, frequencies, "
               "get_expectation_value, filter_hist, post_select(), strip_post_selection, split_frequency_dict(*), oneterm; "
               "non-trivial = no exception and >= 3 keys; distinct = distinct (kind, input) pairs")
@@ -874,6 +1038,7 @@ def run(ck):
     gen_hist_cases(ck, cs, 700 if quick else 9000)
     compare_cases(ck, cs, "hist")
     gen_grouping_cases(ck, 150 if quick else 2000, [0, 1] if quick else [None, 0, 1, 2, 3])
+    long_key_grouping(ck, 40 if quick else 500)
     resampling(ck, 60 if quick else 600)
     if quick:
         exhaustive(ck, 2, lambda L, counts: True)
